@@ -3,6 +3,7 @@
 from __future__ import annotations
 
 import dask
+import numpy as np
 
 from vf import executor as E
 from vf import progrun, util
@@ -14,7 +15,9 @@ RULE = (
     "additionally for x.optimize() and x.persist(): __dask_keys__() must equal the nested grid of (name, *idx) over "
     "numblocks with name == x.name; the graph must define each of them; every dependency of every task (from the "
     "converted task specs, so refs nested in lists/tuples/dicts count) must be defined; Kahn's algorithm must consume "
-    "all tasks; x.name must be unchanged after graph build / optimize / persist / compute. Non-trivial: the graph has "
+    "all tasks; x.name must be unchanged after graph build / optimize / persist / compute. Each output object is then "
+    "updated IN PLACE (x[:1,...] = 0, np.negative(x, out=x) or x += 1, chosen by program hash) after its keys and "
+    "graph were consulted, and the same closure checks are repeated on the same object under its new name. Non-trivial: the graph has "
     ">= 2 distinct key prefixes and the materialised root is a RootAlias (optimisation renamed the root); distinct = "
     "distinct program JSON."
 )
@@ -118,6 +121,26 @@ def check(case, vals=None):
                         st2, f2, lb2 = check_collection(y, f"{kind}d")
                         labs += [f"{kind}d:" + l for l in lb2] + [kind + "d"]
                         fails += [(b, f"variable {k} ({opn}) after .{kind}(): {d}") for b, d in f2]
+                if k in prog["outputs"] and not f:
+                    # the SAME object after an in-place update (its keys and graph were consulted above):
+                    # the collection has a new name, and keys and graph must follow it together
+                    how = ("setitem", "out", "iadd")[int(util.h64(prog), 16) % 3]
+                    try:
+                        if how == "setitem":
+                            x[(slice(0, 1),) * x.ndim] = 0
+                        elif how == "out" and x.dtype.kind in "iuf":
+                            np.negative(x, out=x)
+                        else:
+                            how = "iadd"
+                            x += x.dtype.type(1) if x.dtype.kind != "b" else True
+                    except Exception:
+                        labs.append("inplace-raised")  # whether the update is accepted is C11's business
+                        continue
+                    if x.name == name0:
+                        labs.append("inplace-kept-name")
+                    st3, f3, lb3 = check_collection(x, f"inplace-{how}|{tag}")
+                    labs.append("inplace:" + how)
+                    fails += [(b, f"variable {k} ({opn}) after in-place {how}: {d}") for b, d in f3]
     return ("refused" if refused and not fails else "ok"), fails, sorted(set(labs))
 
 
